@@ -38,7 +38,7 @@ type Delivery struct {
 	// FilteredAt / FilteredTick: when an enforced capture filter dropped the frame instead of handing it out
 	FilteredAt   time.Time
 	FilteredTick int64
-	Drained  bool // removed by a filter installation (SetBPFAndDrain semantics)
+	Drained      bool // removed by a filter installation (SetBPFAndDrain semantics)
 	// Filtered is set when an installed (emulated) filter program rejected the frame.
 	Filtered    bool
 	FilterKnown bool
@@ -76,6 +76,11 @@ type Fault struct {
 	StallAfter time.Duration
 	// Persist: the fault also applies to every later call of the same op on the same handle
 	Persist bool
+}
+
+type inFlight struct {
+	f  *Frame
+	at time.Time
 }
 
 // FaultKey addresses the K-th (1-based) call of Op on handle Handle (-1 = counted across the wire).
@@ -175,6 +180,7 @@ type Wire struct {
 	Mode     FilterMode
 	Faults   map[FaultKey]Fault
 	Fired    []FaultKey
+	inFlight []inFlight // frames scheduled for every open handle, kept for handles opened before they arrive
 	wireOps  map[string]int
 	unsync   func() (packets.SourceSinkHandle, bool, error)
 }
@@ -225,6 +231,20 @@ func (w *Wire) Factory(addr netip.Addr, _ bool) (packets.SourceSinkHandle, bool,
 	h := &Handle{w: w, Idx: len(w.Handles), Target: addr, Opened: time.Now(), notify: make(chan struct{}, 1), opCount: map[string]int{}}
 	h.Calls = append(h.Calls, Call{Op: "factory", At: h.Opened})
 	w.Handles = append(w.Handles, h)
+	// frames that are still in flight when the handle opens reach it like every other open handle (a capture socket
+	// sees whatever arrives after it was opened, whenever the frame was sent)
+	keep := w.inFlight[:0]
+	for _, fl := range w.inFlight {
+		if !fl.at.After(h.Opened) {
+			continue
+		}
+		keep = append(keep, fl)
+		w.seq++
+		d := &Delivery{Frame: fl.f, Handle: h.Idx, At: fl.at, seq: w.seq}
+		w.Deliveries = append(w.Deliveries, d)
+		heap.Push(&h.q, d)
+	}
+	w.inFlight = keep
 	cb := w.OnOpen
 	w.mu.Unlock()
 	if cb != nil {
@@ -246,6 +266,9 @@ func (w *Wire) NewFrame(b []byte, class string, meta any) *Frame {
 func (w *Wire) DeliverAt(f *Frame, at time.Time, only *Handle) {
 	w.mu.Lock()
 	defer w.mu.Unlock()
+	if only == nil {
+		w.inFlight = append(w.inFlight, inFlight{f, at})
+	}
 	for _, h := range w.Handles {
 		if only != nil && h != only {
 			continue
